@@ -115,6 +115,8 @@ func (env *ExprEnv) callExpr(e *ast.CallExpr) Val {
 			return env.fail("typeis: unknown type %s", exprString(e.Args[1]))
 		}
 		return boolVal(sAnd(sNot(sEq(x.S, "0")), sEq(sApp(t.ifTag(), x.S), sInt(int64(t.eng.tagOf(T))))))
+	case "background": // the value returned by context.Background()
+		return Val{K: KIface, S: t.declare("ctx:background", "Int")}
 	case "strof": // string held in an interface value
 		x := arg(0)
 		return Val{K: KStr, S: sApp(t.ifVal(), x.S), T: types.Typ[types.String]}
@@ -248,10 +250,18 @@ func (env *ExprEnv) callExpr(e *ast.CallExpr) Val {
 		i := constInt(e.Args[1])
 		bf := t.declareFun(fmt.Sprintf("$clobind%d", i), []string{"Int"}, "Int")
 		return Val{K: KInt, S: sApp(bf, f.S)}
-	case "chanlen":
+	case "tokens": // tokens(ch): sends minus receives performed on ch by the verified thread
 		c := arg(0)
-		t.regArray("$chanlen", "(Array Int Int)")
-		return intVal(sApp("select", t.lookup(env.st, "$chanlen"), c.S))
+		t.regArray("$tok", "(Array Int Int)")
+		return intVal(sApp("select", t.lookup(env.st, "$tok"), c.S))
+	case "sends":
+		c := arg(0)
+		t.regArray("$sends", "(Array Int Int)")
+		return intVal(sApp("select", t.lookup(env.st, "$sends"), c.S))
+	case "fired":
+		c := arg(0)
+		t.regArray("$timerfired", "(Array Int Bool)")
+		return boolVal(sApp("select", t.lookup(env.st, "$timerfired"), c.S))
 	case "chancap":
 		c := arg(0)
 		t.regArray("$chancap", "(Array Int Int)")
